@@ -215,6 +215,11 @@ Inductive vop : Type :=
 | OpBload (hseg hoff : Z) (o : option Z) (bs : list Z)  (* a file with header (hseg, hoff) written by the harness *)
 | OpBloadGen (hseg hoff : Z) (o : option Z) (seed n : Z)  (* generated data, see gen_bytes *)
 | OpBloadFile (idx : Z) (o : option Z)                  (* the file of the idx-th BSAVE of the session *)
+| OpPage (apage : Z)                   (* SCREEN ,,apage,vpage: graphics statements work on the active page *)
+| OpPcopy (src dst : Z)                (* PCOPY src,dst *)
+| OpPset (x y c : Z)                   (* PSET (x,y),c on the active page, c an attribute of the mode *)
+| OpHline (x0 x1 y c : Z)              (* LINE (x0,y)-(x1,y),c with x0 <= x1 *)
+| OpPoint (x y : Z)                    (* POINT(x,y) inside the screen *)
 | OpPlane (v : Z)                      (* OUT &h3CF, v *)
 | OpMask (v : Z).                      (* OUT &h3C5, v *)
 
@@ -232,27 +237,42 @@ Definition hash_bytes (l : list Z) : Z := fold_left (fun h b => (h * 257 + b + 1
 (* small blocks are reported in full, large ones by length and hash *)
 Definition report (l : list Z) : list Z := if zlen l <=? 48 then l else [zlen l; hash_bytes l].
 
+(* ---- the graphics statements and PCOPY act on the same page buffers the memory mappers address *)
+Definition draw_run (st : vstate) (page y x w c : Z) : vstate :=
+  with_px st (set_run (vs_px st) page y x w (fun _ _ => c)).
+Definition copy_page (c : Z -> Z -> Z -> Z) (src dst : Z) : Z -> Z -> Z -> Z :=
+  fun p a b => c (if p =? dst then src else p) a b.
+Definition pcopy (st : vstate) (src dst : Z) : vstate :=
+  mk_vstate (copy_page (vs_px st) src dst) (copy_page (vs_ch st) src dst) (copy_page (vs_at st) src dst)
+            (vs_plane st) (vs_mask st).
+
 (* POKE checks its value (error.range_check(0, 255, val)): Illegal function call; the session stops there.
    result: state, output, false if stopped by an error *)
-Fixpoint run_ops (m : vmode) (st : vstate) (files : list mfile) (ops : list vop) : vstate * list Z * bool :=
+Fixpoint run_ops (m : vmode) (st : vstate) (ap : Z) (files : list mfile) (ops : list vop)
+  : vstate * list Z * bool :=
   match ops with
   | [] => (st, [], true)
   | op :: r =>
       match op with
       | OpPoke a b =>
           if (b <? 0) || (255 <? b) then (st, [-1; 5], false)
-          else run_ops m (poke m st a b) files r
-      | OpPeek a => let '(st2, out2, ok) := run_ops m st files r in (st2, peek m st a :: out2, ok)
+          else run_ops m (poke m st a b) ap files r
+      | OpPeek a => let '(st2, out2, ok) := run_ops m st ap files r in (st2, peek m st a :: out2, ok)
       | OpBsave seg off n =>
           let f := bsave_stmt m st seg off n in
-          let '(st2, out2, ok) := run_ops m st (files ++ [f]) r in (st2, report (mf_data f) ++ out2, ok)
-      | OpBload hseg hoff o bs => run_ops m (bload_stmt m st (mk_mfile hseg hoff bs) o) files r
+          let '(st2, out2, ok) := run_ops m st ap (files ++ [f]) r in (st2, report (mf_data f) ++ out2, ok)
+      | OpBload hseg hoff o bs => run_ops m (bload_stmt m st (mk_mfile hseg hoff bs) o) ap files r
       | OpBloadGen hseg hoff o seed n =>
-          run_ops m (bload_stmt m st (mk_mfile hseg hoff (gen_bytes seed n)) o) files r
+          run_ops m (bload_stmt m st (mk_mfile hseg hoff (gen_bytes seed n)) o) ap files r
       | OpBloadFile idx o =>
-          run_ops m (bload_stmt m st (nth (Z.to_nat idx) files (mk_mfile 0 0 [])) o) files r
-      | OpPlane v => run_ops m (mk_vstate (vs_px st) (vs_ch st) (vs_at st) v (vs_mask st)) files r
-      | OpMask v => run_ops m (mk_vstate (vs_px st) (vs_ch st) (vs_at st) (vs_plane st) v) files r
+          run_ops m (bload_stmt m st (nth (Z.to_nat idx) files (mk_mfile 0 0 [])) o) ap files r
+      | OpPage a => run_ops m st a files r
+      | OpPcopy src dst => run_ops m (pcopy st src dst) ap files r
+      | OpPset x y c => run_ops m (draw_run st ap y x 1 c) ap files r
+      | OpHline x0 x1 y c => run_ops m (draw_run st ap y x0 (x1 - x0 + 1) c) ap files r
+      | OpPoint x y => let '(st2, out2, ok) := run_ops m st ap files r in (st2, vs_px st ap y x :: out2, ok)
+      | OpPlane v => run_ops m (mk_vstate (vs_px st) (vs_ch st) (vs_at st) v (vs_mask st)) ap files r
+      | OpMask v => run_ops m (mk_vstate (vs_px st) (vs_ch st) (vs_at st) (vs_plane st) v) ap files r
       end
   end.
 
@@ -262,5 +282,5 @@ Definition probe (m : vmode) (st : vstate) (pr : Z * Z * Z) : list Z :=
   let '(p, a, b) := pr in
   if vm_kind m =? 3 then [vs_ch st p a b; vs_at st p a b] else [vs_px st p a b].
 Definition run_case (m : vmode) (seed range : Z) (ops : list vop) (probes : list (Z * Z * Z)) : list Z :=
-  let '(st, out, ok) := run_ops m (init_state seed range) [] ops in
+  let '(st, out, ok) := run_ops m (init_state seed range) 0 [] ops in
   if ok then out ++ flat_map (probe m st) probes else out.
